@@ -961,11 +961,18 @@ class Gen:
         o = f.fid
         n_stmt = max(1, self.target_len())
         if self.on("docstrings", 0.15):
-            k = r.randint(0, 2)
-            text = '"""' + r.choice(["Summary.", "Does { things } (maybe).", "def fake(): pass"]) + "".join(
-                "\n" + " " * indent + r.choice(["more text", "    indented text", "# not a comment", "}"]) for _ in range(k)) + \
+            k = r.randint(0, 4)
+            # continuation lines may be truly empty (summary, blank line, description) or whitespace-only
+            pieces = ["\n" + " " * indent + r.choice(["more text", "    indented text", "# not a comment", "}"]) if r.random() < 0.6 else
+                      "\n" + r.choice(["", "", " " * indent]) for _ in range(k)]
+            text = '"""' + r.choice(["Summary.", "Does { things } (maybe).", "def fake(): pass"]) + "".join(pieces) + \
                 (('\n' + " " * indent) if k else "") + '"""'
             self.emit([self.T(text, o, kind="doc")], indent)
+            if r.random() < 0.25:
+                # a function whose whole body is its docstring: the multi-line string is the function's last token
+                self.use("docstring_only_body")
+                f.last = self.py_last_code_tok()
+                return
         can_nest = "nested" in self.F and f.depth + 1 < self.max_depth
         nest_positions = set()
         if can_nest and r.random() < (0.45 if f.depth == 0 else 0.3):
